@@ -71,6 +71,7 @@ def dispatch (op : String) (args : List SExp) : Option OpResult :=
   | "dav.fail" => opDavFail args
   | "pf.prin" => opPfPrin args
   | "pf.discover" => opPfDiscover args
+  | "pf.consist" => opPfConsist args
   | "obj.cals" => opObjCals args
   | "obj.books" => opObjBooks args
   | "obj.calobjs" => opObjObjs "calendar-object" "calendar-data" true args
